@@ -50,11 +50,11 @@ def d5(ctx):
         for sg in (True, False):
             outs = sx.run(fn, lambda: dict(self=_self(scen), order=order, subtract_gs=sg))
             rets = [o for o in outs if o.kind == "return"]
-            if len(outs) != 1 or len(rets) != 1 or not isinstance(rets[0].value, tuple) or len(rets[0].value) != 2:
+            if len(outs) != 1 or len(rets) != 1 or not isinstance(dx.val(rets[0]), tuple) or len(dx.val(rets[0])) != 2:
                 ctx.bad(rule, fn, f"hamiltonian({order}, {sg}) does not return one (operator, rules) pair: {outs}",
                         key=f"shape {order} {sg}")
                 continue
-            op, rules = rets[0].value
+            op, rules = dx.val(rets[0])
             part = {0: T("attr", h, "h0"), 1: T("attr", h, "h1")}.get(order)
             want_op = T("item", part, 0) if part is not None else 0
             want_rules = T("item", part, 1) if part is not None else None
@@ -130,7 +130,7 @@ def r03a_blocks(ctx):
         scen = dx.Scenario()
         sx = dx.make_sx(ctx, meth, scen, max_paths=4096)
         outs = sx.run(fn, lambda: dict(self=_self(scen), order=1, block="ph,ph", indices="ia,jb", subtract_gs=sym("SG")))
-        flags = {args_of(c).get("subtract_gs") for o in outs for c in subterms(o.value) if c.op == "mcall" and c.args[1] == "hamiltonian"}
+        flags = {args_of(c).get("subtract_gs") for o in outs for c in subterms(dx.val(o)) if c.op == "mcall" and c.args[1] == "hamiltonian"}
         ctx.check(rule, fn, flags == {sym("SG")}, f"{meth}: shift flag forwarded to the Hamiltonian",
                   f"{meth}: hamiltonian is called with subtract_gs in {sorted(map(show, flags))}", key=f"{meth} shift flag")
 
@@ -148,7 +148,7 @@ def r03a_mvp(ctx):
         if len(outs) != 1 or outs[0].kind != "return":
             ctx.bad(rule, fn, f"{what}: {outs}", key=f"mvp shape {block}")
             continue
-        v = outs[0].value
+        v = dx.val(outs[0])
         ctx.check(rule, fn, isinstance(v, T) and v.op == "call" and v.args[0] == "evaluate_deltas",
                   f"{what}: Kronecker deltas of the contraction evaluated", f"{what}: result is not passed through evaluate_deltas: {show(v)[:200]}",
                   key=f"mvp deltas {block}")
@@ -222,7 +222,7 @@ def r03a_sums(ctx):
                                 want.append(mcall(sym("self"), inner, order=o, space=space, block=blk, indices=idx, subtract_gs=sym("SG")))
                             else:
                                 want.append(mcall(sym("self"), inner, order=o, block=blk, subtract_gs=sym("SG")))
-                    dx.compare(ctx, rule, fn, what, dx.keys(dx.skeleton(outs[0].value)), dx.keys(expand_products(t_add(*want)) if want else []),
+                    dx.compare(ctx, rule, fn, what, dx.keys(dx.skeleton(dx.val(outs[0]))), dx.keys(expand_products(t_add(*want)) if want else []),
                                key=f"{meth} {variant} {n} {space if meth == 'mvp' else ''} {order}")
     # expectation value of one block: left vector on indices generated for the bra space
     fn = ctx.model.fn(f"{SM}.expectation_value_block_order")
@@ -242,7 +242,7 @@ def r03a_sums(ctx):
         g = gen[0]
         want = t_mul(mcall(sym("isr"), "amplitude_vector", indices=g, lr="left"),
                      mcall(sym("self"), "mvp_block_order", order=order, space=block[0], block=block, indices=g, subtract_gs=sym("SG")))
-        dx.compare(ctx, rule, fn, what, dx.keys(dx.skeleton(outs[0].value)), dx.keys(expand_products(want)), key=f"expec formula {block}")
+        dx.compare(ctx, rule, fn, what, dx.keys(dx.skeleton(dx.val(outs[0]))), dx.keys(expand_products(want)), key=f"expec formula {block}")
 
 
 def r03b(ctx):
@@ -262,11 +262,11 @@ def r03b(ctx):
             ms = min(want, key=len)
             want = {a: n - (len(a) - len(ms)) // 2 for a in want}
             outs = sx.run(mp, lambda: dict(self=_self(scen), order=n))
-            val = outs[0].value if len(outs) == 1 and outs[0].kind == "return" else None
+            val = dx.val(outs[0]) if len(outs) == 1 and outs[0].kind == "return" else None
             ctx.check(rule, mp, val == want, f"{var}-ADC({n}): classes {want}",
                       f"{var}-ADC({n}): max_ptorder_spaces gives {val}, expected {want}", key=f"spaces {var} {n}")
             outs = sx.run(bo, lambda: dict(self=_self(scen), order=n))
-            val = outs[0].value if len(outs) == 1 and outs[0].kind == "return" else None
+            val = dx.val(outs[0]) if len(outs) == 1 and outs[0].kind == "return" else None
             ctx.check(rule, bo, val == table, f"{var}-ADC({n}): block orders n-(mu-1)-(nu-1)",
                       f"{var}-ADC({n}): block_order gives {val}, expected {table}", key=f"blocks {var} {n}")
 
@@ -283,7 +283,7 @@ def d2(ctx):
         for o in outs:
             if o.kind != "return":
                 continue
-            for w in subterms(o.value):
+            for w in subterms(dx.val(o)):
                 if not (w.op == "call" and w.args[0] == "wicks"):
                     continue
                 n += 1
